@@ -11,7 +11,7 @@ def run(chk):
     libs = _compose.load(_compose.KERNEL_LIBS, chk)
     _compose.obligations(chk, "C11", libs, own_mods=["PrimitivModel.Props.C11"], own_drivers=_graph.DRIVERS)
     for lib in libs:
-        lib.run_family(chk, "C11")
+        _compose.run_lib(lib, chk, "C11")
     _graph.run_family(chk, {"C11", "C10"}, tier="quick")
     _compose.finish(chk)
     chk.trusted += ["memory safety of C++ that is not index arithmetic or ownership bookkeeping (iterator invalidation, object lifetime, library internals) is observed only by the sanitizers on the generated histories",
